@@ -396,6 +396,15 @@ func runC16(c *Ctx) error {
 		if strings.Join(ml, "\x00") != strings.Join(cfg.Depends, "\x00") {
 			c.Rep.Disagree(report.Disagreement{Family: "expansion-scope", What: "expandEnvVarsStringSlice", Input: map[string]any{"items": items}, Model: fmt.Sprintf("%q", ml), Impl: fmt.Sprintf("%q", cfg.Depends)})
 		}
+		// the statement itself, on the real result: no item that is empty or blank survives, and every item is trimmed
+		for _, it := range cfg.Depends {
+			if strings.TrimSpace(it) == "" || strings.TrimSpace(it) != it {
+				c.Rep.Find(report.Finding{Property: "C16", Family: "expansion-scope", Shape: "list-item-empty-or-untrimmed",
+					What:  fmt.Sprintf("depends %q parsed (environment %v) to %q: the item %q expands to nothing / is not trimmed but is kept", items, env, cfg.Depends, it),
+					Input: map[string]any{"items": items, "env": env}})
+				break
+			}
+		}
 	}
 	return nil
 }
